@@ -95,3 +95,7 @@ META.update({
             "text": "Live connections rotate their 1-RTT keys every 500-1550 packets under loss, duplication and reordering; the two ends' generations must advance by one and never differ by more than one, genuine intact datagrams must decrypt, data must stay intact, no crypto close. The component engine drives two KeySets with tiny limits through a hostile channel and checks the limits and generation order after every step.",
             "note": _SIM_NOTE + " Production AEAD limits are never reached; header-protected key-phase bits are not visible on the wire, generations are taken from key_update events."},
 })
+
+
+ENGINES.append({"name": "vq-cc", "path": "harness/vq-cc", "serves_properties": ["C09", "C10", "C15"],
+                "kind_free_text": "component monitors: CUBIC/BBR through the CongestionController trait against a shadow of outstanding packets; RttEstimator/Pto against an RFC 9002 transcription; two KeySets with an instrumented key joined by a hostile channel; natively and under Miri"})
